@@ -21,10 +21,10 @@ X == V("x")
 Y == V("y")
 XA == VP("x", "a")
 XAB == [k |-> "var", segs |-> <<[t |-> "k", v |-> "x"], [t |-> "k", v |-> "a"], [t |-> "k", v |-> "b"]>>]
-XL0 == [k |-> "var", segs |-> <<[t |-> "k", v |-> "x"], [t |-> "k", v |-> "l"], [t |-> "i", v |-> 0]>>]
-XL9 == [k |-> "var", segs |-> <<[t |-> "k", v |-> "x"], [t |-> "k", v |-> "l"], [t |-> "i", v |-> 9]>>]
+XL0 == [k |-> "var", segs |-> <<[t |-> "k", v |-> "x"], [t |-> "k", v |-> "l"], [t |-> "i", i |-> 0]>>]
+XL9 == [k |-> "var", segs |-> <<[t |-> "k", v |-> "x"], [t |-> "k", v |-> "l"], [t |-> "i", i |-> 9]>>]
 XN == VP("x", "n")
-XK == [k |-> "var", segs |-> <<[t |-> "k", v |-> "x"], [t |-> "p", v |-> <<[t |-> "k", v |-> "k"]>>], [t |-> "k", v |-> "b"]>>]
+XK == [k |-> "var", segs |-> <<[t |-> "k", v |-> "x"], [t |-> "p", p |-> <<[t |-> "k", v |-> "k"]>>], [t |-> "k", v |-> "b"]>>]
 Paths == {Y, XAB, XL0, XL9, XN, XK, VP("x", "l"), V("nosuch"), VP("y", "size"), VP("x", "size"), VP("nosuch", "first")}
 
 Outs == {NOut(P(p)) : p \in Paths}
